@@ -32,8 +32,8 @@ def passing(wt):
     return ok
 
 
-def verify(pid, mk):
-    wt = f"/tmp/wt/{pid}"
+def verify(pid, mk, root="/tmp/wt", prefix=""):
+    wt = f"{root}/{pid}"
     out = f"{wt}/out"
     diff, demo, meta = f"{out}/{mk}.diff", f"{out}/{mk}_demo.py", f"{out}/{mk}.json"
     for f in (diff, demo, meta):
@@ -55,7 +55,7 @@ def verify(pid, mk):
         print("  clean demo output:", o0[-400:])
         print("  mutated demo output:", o1[-400:])
         return False
-    d = os.path.join(SEEDED, f"{pid}-{mk}")
+    d = os.path.join(SEEDED, f"{prefix}{pid}-{mk}")
     os.makedirs(d, exist_ok=True)
     shutil.copy(diff, f"{d}/patch.diff")
     shutil.copy(demo, f"{d}/demo.py")
@@ -68,9 +68,41 @@ def verify(pid, mk):
     return True
 
 
+SCRATCH = "/tmp/seedrun"
+
+
+def run_scratch(name, tier="quick", pid=None):
+    """like run(), but the patch is applied to a scratch worktree of /repo's HEAD and the check analyses that copy
+    (VERIF_REPO), so /repo stays untouched and other work can go on meanwhile"""
+    d = os.path.join(SEEDED, name)
+    pid = pid or (name.split("-")[1] if name.startswith("r2-") else name.split("-")[0])
+    head = sh("git rev-parse HEAD", cwd="/repo")[1].strip()
+    if not os.path.isdir(SCRATCH):
+        rc, o = sh(f"git worktree add -q --detach {SCRATCH} {head}", cwd="/repo")
+        assert rc == 0, o
+    sh(f"git checkout -q -f --detach {head} && git clean -fdq", cwd=SCRATCH)
+    rc, o = sh(f"git apply {d}/patch.diff", cwd=SCRATCH)
+    if rc != 0:
+        rc, o = sh(f"patch -p1 --fuzz=3 -s --no-backup-if-mismatch < {d}/patch.diff", cwd=SCRATCH)
+    if rc != 0:
+        print(f"{name} vs {pid} [{tier}]: PATCH DOES NOT APPLY")
+        return 3, o
+    t = time.time()
+    rc, o = sh(f"./check {pid} --tier {tier}", cwd=ROOT, env={"VERIF_REPO": SCRATCH}, timeout=7200)
+    sh("git checkout -q -f . && git clean -fdq", cwd=SCRATCH)
+    viol = [l for l in o.splitlines() if l.startswith("VIOLATION")]
+    print(f"{name} vs {pid} [{tier}]: exit={rc} violations={len(viol)} wall={time.time()-t:.0f}s")
+    for l in o.splitlines():
+        if l.startswith(("  key=", "HARNESS-ERROR", "INCONCLUSIVE")):
+            print("   ", l[:260])
+            break
+    sys.stdout.flush()
+    return rc, o
+
+
 def run(name, tier="quick", pid=None):
     d = os.path.join(SEEDED, name)
-    pid = pid or name.split("-")[0]
+    pid = pid or (name.split("-")[1] if name.startswith("r2-") else name.split("-")[0])
     rc, o = sh("git status --porcelain", cwd="/repo")
     assert o.strip() == "", "repo dirty: " + o
     rc, o = sh(f"git apply {d}/patch.diff", cwd="/repo")
@@ -94,8 +126,17 @@ if __name__ == "__main__":
     cmd = sys.argv[1]
     if cmd == "verify":
         sys.exit(0 if verify(sys.argv[2], sys.argv[3]) else 1)
+    if cmd == "verify2":  # second round: worktrees under /tmp/wt2, stored as seeded/r2-Cnn-mK
+        sys.exit(0 if verify(sys.argv[2], sys.argv[3], "/tmp/wt2", "r2-") else 1)
     if cmd == "run":
         run(sys.argv[2], *(sys.argv[3:]))
+    if cmd == "runs":
+        run_scratch(sys.argv[2], *(sys.argv[3:]))
+    if cmd == "runall2":
+        tier = sys.argv[2] if len(sys.argv) > 2 else "quick"
+        for n in sorted(os.listdir(SEEDED)):
+            if n.startswith("r2-") and os.path.isdir(os.path.join(SEEDED, n)):
+                run_scratch(n, tier)
     if cmd == "runall":
         tier = sys.argv[2] if len(sys.argv) > 2 else "quick"
         for n in sorted(os.listdir(SEEDED)):
